@@ -103,8 +103,41 @@ func lastField(sym string) string {
 	return s
 }
 
+// klEnv binds the parameters of an inlined builder to the argument values at the inlining call.
+type klEnv struct {
+	m      map[*ssa.Parameter]ssa.Value
+	parent *klEnv
+}
+
+func (e *klEnv) resolve(v ssa.Value) (ssa.Value, *klEnv) {
+	for e != nil {
+		p, isP := v.(*ssa.Parameter)
+		if !isP {
+			return v, e
+		}
+		a, ok := e.m[p]
+		if !ok {
+			return v, e
+		}
+		v, e = a, e.parent
+	}
+	return v, nil
+}
+
+func bindArgs(g *ssa.Function, call *ssa.Call, parent *klEnv) *klEnv {
+	env := &klEnv{m: map[*ssa.Parameter]ssa.Value{}, parent: parent}
+	for i, p := range g.Params {
+		if i < len(call.Call.Args) {
+			env.m[p] = call.Call.Args[i]
+		}
+	}
+	return env
+}
+
 // keyLayoutOf extracts the layout of a straight-line key builder.
-func (l *Loaded) keyLayoutOf(fn *ssa.Function) *keyLayout {
+func (l *Loaded) keyLayoutOf(fn *ssa.Function) *keyLayout { return l.keyLayoutEnv(fn, nil, 0) }
+
+func (l *Loaded) keyLayoutEnv(fn *ssa.Function, env *klEnv, depth int) *keyLayout {
 	kl := &keyLayout{fn: fn, ok: true}
 	fail := func(f string, a ...interface{}) {
 		kl.ok = false
@@ -113,6 +146,7 @@ func (l *Loaded) keyLayoutOf(fn *ssa.Function) *keyLayout {
 		}
 	}
 	classify := func(v ssa.Value) seg {
+		v, _ = env.resolve(v)
 		s := Sym(v)
 		// []byte(string field)
 		if cv, ok := v.(*ssa.Convert); ok {
@@ -172,7 +206,7 @@ func (l *Loaded) keyLayoutOf(fn *ssa.Function) *keyLayout {
 				// another key builder of the package: inline its layout
 				if inner, ok := v.(*ssa.Call); ok {
 					if g := inner.Call.StaticCallee(); g != nil && g.Blocks != nil && g != fn && fnPkgPath(g) == fnPkgPath(fn) && isBytesResult(g) {
-						sub := l.keyLayoutOf(g)
+						sub := l.keyLayoutEnv(g, bindArgs(g, inner, env), depth+1)
 						if !sub.ok {
 							fail("inlined builder %s: %s", g.Name(), sub.why)
 						}
@@ -212,6 +246,23 @@ func (l *Loaded) keyLayoutOf(fn *ssa.Function) *keyLayout {
 				// calls to another key builder: inline its layout
 				if g := call.Call.StaticCallee(); g != nil && g.Blocks != nil && fnPkgPath(g) == fnPkgPath(fn) && isBytesResult(g) && strings.Contains(Sym(in.(ssa.Value)), "") {
 					// only when its result feeds a buffer write / append in this function; handled by classify via Write
+				}
+			}
+		}
+	}
+	// a builder that only hands on the result of another builder of the package
+	if len(kl.segs) == 0 && kl.ok && depth < 4 {
+		for _, b := range fn.Blocks {
+			if r, isR := b.Instrs[len(b.Instrs)-1].(*ssa.Return); isR && len(r.Results) == 1 {
+				if inner, isC := r.Results[0].(*ssa.Call); isC {
+					if g := inner.Call.StaticCallee(); g != nil && g.Blocks != nil && g != fn && fnPkgPath(g) == fnPkgPath(fn) && isBytesResult(g) {
+						sub := l.keyLayoutEnv(g, bindArgs(g, inner, env), depth+1)
+						if !sub.ok {
+							fail("delegated builder %s: %s", g.Name(), sub.why)
+						}
+						kl.lead = sub.lead
+						kl.segs = append(kl.segs, sub.segs...)
+					}
 				}
 			}
 		}
@@ -287,7 +338,12 @@ func (l *Loaded) keyBuilders(rel string) map[string]*keyLayout {
 		if !uses {
 			continue
 		}
-		out[fn.Name()] = l.keyLayoutOf(fn)
+		kl := l.keyLayoutOf(fn)
+		// a generic helper whose leading bytes are a parameter is judged through the builders that call it
+		if kl.ok && len(kl.segs) > 0 && kl.segs[0].kind == "var" && strings.HasPrefix(kl.segs[0].src, "p:") && !strings.Contains(kl.segs[0].src, ".") && isNewFunc(fn) {
+			continue
+		}
+		out[fn.Name()] = kl
 	}
 	return out
 }
